@@ -2118,6 +2118,8 @@ class typed_data( dfa ):
         if structure_tag is None:
             strt[None]		= move_if( 	'mov_struct',	source='.STRUCT.structure_tag',
                                                 destination='.structure_tag' )
+        strt[None]		= move_if( 	'ini_struct',	destination='.STRUCT.data',
+                                    initializer=lambda **kwds: dict( input=array.array( type_bytes_array_symbol, [] )))
         strt[None]		= move_if( 	'mov_struct',	source='.STRUCT.data',
                                                 destination='.STRUCT',
                                     initializer=lambda **kwds: dict( input=array.array( type_bytes_array_symbol, [] )))
